@@ -122,6 +122,9 @@ EFFECTS = [
     # (an entry of the `_in_packet` dictionary is an attribute named `_in_packet.<key>`)
     dict(file="FnKeepalive", src="client.py", qual="Client._handle_pingresp", name="handlePingresp", params=[], ret="Int",
          attrs=[("_in_packet.remaining_length", "Int")], clock="now", ignore=["_easy_log"], calls={}),
+    dict(file="FnLoopRc", src="client.py", qual="Client.ack", name="ack", params=[("mid", "Int"), ("qos", "Int")], ret="Int",
+         attrs=[("_manual_ack", "Bool")], clock="now",
+         calls={"_send_puback": dict(clobbers="*", args=1, returns=True), "_send_pubcomp": dict(clobbers="*", args=1, returns=True)}),
     # (two observers the properties speak about: `len(self.<attr>)` of a container attribute is the Int parameter `self_<attr>_len`)
     dict(file="FnLoopRc", src="client.py", qual="Client.is_connected", name="isConnected", params=[], ret="Bool",
          attrs=[("_state", "Int")], clock="now", calls={}),
